@@ -249,7 +249,7 @@ def _rename_job(args):
     bp, decl, seed = args
     from harness import modelkit
     rnd = random.Random('%s|%s|%s' % (bp['name'], decl, seed))
-    prog0 = modelcheck.program_for(bp, decl, seed)
+    prog0 = modelcheck.program_for(bp, decl, seed, api_routes=False)   # (the renamer works on sector references)
     rho = make_renaming(prog0, rnd)
     # sometimes keep goods/labour names, sometimes keep sector codes: all three sub-cases of the statement
     mode = rnd.choice(['all', 'all', 'sectors', 'markets', 'countries', 'per_country'])
@@ -308,6 +308,8 @@ def recountry(prog, mapping, drop_global=True):
             st['code'] = new
             if 'currency' in st or not st.get('region'):
                 st['currency'] = cur
+                if cur is None:
+                    st.pop('currency')
                 st.pop('region', None)
         for key in ('country',):
             if key in st and st[key] in mapping:
@@ -343,12 +345,14 @@ def _embed_job(args):
     T = modelcheck.HORIZON
     solo_progs = []
     joint = []
-    codes = ['EA', 'EB', 'EC']
+    # country codes of the embedded economies: plain ones, and codes that extend one another after an underscore
+    codes = rnd.choice([['EA', 'EB', 'EC'], ['EA', 'EA_2', 'EB'], ['Z', 'Z_9', 'K9'], ['NA', 'NA_B', 'NA_B_2']])
     for i, (bp, decl) in enumerate(members):
-        prog = modelcheck.program_for(bp, decl, seed, with_ic=False, region_mode='always')
+        prog = modelcheck.program_for(bp, decl, seed, with_ic=False, region_mode='always', api_routes=False)
         ccs = [c['code'] for c in bp['countries']]
         if len(ccs) == 1:
-            mapping = {ccs[0]: (codes[i], 'CUR' + codes[i])}
+            # a single-country economy may leave its currency to the default (a currency named after the country)
+            mapping = {ccs[0]: (codes[i], ('CUR' + codes[i]) if rnd.random() < 0.5 else None)}
         else:
             mapping = {cc: (codes[i] + cc, 'CUR' + codes[i]) for cc in ccs}
         p = recountry(prog, mapping)
@@ -458,8 +462,8 @@ def run(rep):
     # models put together by a bundled builder (blueprint field `book`) cannot be re-declared under other codes or inside
     # a larger model by the driver; their economies are covered through the twin blueprints SIM / SIMEX / PC / REG2
     def plain(bp):
-        if bp.get('book'):
-            return False
+        if bp.get('book') or any(d['cc'] == 'EXT' for d in bp['sectors']):
+            return False      # (a sector inside the ExternalSector country: the EXT code is not a constructor argument)
         return all('_' not in d['code'] and '_' not in d['good'] and '_' not in d['lab'] for d in bp['sectors'])
     chosen = [b for b in chosen if plain(bps[b['name']])]
     jobs = [(bps[b['name']], b['decl'], rep.seed) for b in chosen]
